@@ -226,22 +226,30 @@ JsonOk(st) == st.mode = "Done"
 FirstIdx(s, S) == LET I == {i \in 1..Len(s) : s[i] \in S} IN IF I = {} THEN Len(s) + 1 ELSE MinOf(I)
 RECURSIVE DigitsVal(_, _)
 DigitsVal(s, acc) == IF s = <<>> THEN acc ELSE DigitsVal(Tail(s), Min2(acc * 10 + (Head(s) - 48), 100000))
-NumCanon(tok) ==
+AllDigits(s) == \A i \in 1..Len(s) : IsDigit(s[i])
+NumParts(tok) ==
   LET neg == Len(tok) > 0 /\ tok[1] = MINUS
       body == IF neg THEN Tail(tok) ELSE tok
       epos == FirstIdx(body, {101, 69})
       mant == SubSeq(body, 1, epos - 1)
       exps == SubSeq(body, epos + 1, Len(body))
-      eneg == Len(exps) > 0 /\ exps[1] = MINUS
-      edig == IF Len(exps) > 0 /\ exps[1] \in {MINUS, PLUS} THEN Tail(exps) ELSE exps
-      expv == IF eneg THEN 0 - DigitsVal(edig, 0) ELSE DigitsVal(edig, 0)
       dot == FirstIdx(mant, {DOT})
-      ip == SubSeq(mant, 1, dot - 1)
-      fr == SubSeq(mant, dot + 1, Len(mant))
-      digs == ip \o fr
+  IN [neg |-> neg, hasexp |-> epos <= Len(body), hasdot |-> dot <= Len(mant),
+      eneg |-> Len(exps) > 0 /\ exps[1] = MINUS,
+      edig |-> IF Len(exps) > 0 /\ exps[1] \in {MINUS, PLUS} THEN Tail(exps) ELSE exps,
+      ip |-> SubSeq(mant, 1, dot - 1), fr |-> SubSeq(mant, dot + 1, Len(mant))]
+\* a decimal number token: -? digits+ (. digits+)? ([eE] [+-]? digits+)?
+IsNumTok(tok) == LET p == NumParts(tok) IN
+  /\ Len(p.ip) >= 1 /\ AllDigits(p.ip)
+  /\ (p.hasdot => Len(p.fr) >= 1) /\ AllDigits(p.fr)
+  /\ (p.hasexp => Len(p.edig) >= 1) /\ AllDigits(p.edig)
+NumCanon(tok) ==
+  LET p == NumParts(tok)
+      expv == IF p.eneg THEN 0 - DigitsVal(p.edig, 0) ELSE DigitsVal(p.edig, 0)
+      digs == p.ip \o p.fr
       nz == {i \in 1..Len(digs) : digs[i] # 48}
   IN IF nz = {} THEN <<0, 0>>
-     ELSE <<(IF neg THEN 1 ELSE 0), Len(ip) + expv - (MinOf(nz) - 1)>> \o SubSeq(digs, MinOf(nz), MaxOf(nz))
+     ELSE <<(IF p.neg THEN 1 ELSE 0), Len(p.ip) + expv - (MinOf(nz) - 1)>> \o SubSeq(digs, MinOf(nz), MaxOf(nz))
 
 \* the value a cell must read back as (numbers by value; a non-finite float has no JSON number: null)
 Norm(v) == IF v.k = 2 THEN (IF NonFinite(v.s) THEN NullV ELSE V(2, NumCanon(v.s))) ELSE v
@@ -251,7 +259,15 @@ ExpectCsv(t) == <<t.hdr>> \o [i \in 1..Len(t.rows) |-> [j \in 1..Len(t.rows[i]) 
 MemberSet(o) == {<<o[j].key, Norm(o[j].val)>> : j \in 1..Len(o)}
 ExpectObj(t, i) == {<<t.hdr[j], Norm(t.rows[i][j])>> : j \in 1..Len(t.hdr)}
 DistinctNames(t) == Cardinality({t.hdr[j] : j \in 1..Len(t.hdr)}) = Len(t.hdr)
-CsvAccept(t, st) == CsvOk(st) /\ st.rows = ExpectCsv(t)
+\* a CSV cell shows the displayed text; a number may be displayed in any decimal form of the same value
+CsvCellOk(v, cell) == IF v.k = 2 /\ ~NonFinite(v.s) THEN IsNumTok(cell) /\ NumCanon(cell) = NumCanon(v.s)
+                      ELSE cell = Display(v)
+CsvAccept(t, st) == /\ CsvOk(st)
+                    /\ Len(st.rows) = Len(t.rows) + 1
+                    /\ st.rows[1] = t.hdr
+                    /\ \A i \in 1..Len(t.rows) :
+                          /\ Len(st.rows[i + 1]) = Len(t.rows[i])
+                          /\ \A j \in 1..Len(t.rows[i]) : CsvCellOk(t.rows[i][j], st.rows[i + 1][j])
 JsonAccept(t, st) == /\ JsonOk(st)
                      /\ Len(st.objs) = Len(t.rows)
                      /\ \A i \in 1..Len(t.rows) : Len(st.objs[i]) = Len(t.hdr) /\ MemberSet(st.objs[i]) = ExpectObj(t, i)
